@@ -2,7 +2,7 @@
    Only theorem statements, each closed by [exact <lemma>], and Print Assumptions. *)
 From Coq Require Import NArith List.
 From Coq Require Import Permutation Sorted.
-From LV Require Import lib.Bytes model.Codec model.IdOrder proofs.CodecProofs proofs.IdOrderProofs.
+From LV Require Import lib.Bytes model.Codec model.IdOrder model.EncHist proofs.CodecProofs proofs.IdOrderProofs proofs.EncHistProofs.
 Import ListNotations.
 Local Open Scope N_scope.
 
@@ -59,6 +59,17 @@ Example C32_ex_wide_epochs :
     = [0; 1; 2147483650; 4294967295].
 Proof. repeat split; vm_compute; reflexivity. Qed.
 
+(* --- freshness of results: histories of encoder calls interleaved with caller-side mutations of the
+   returned slices (append, overwrite in place, append(enc a, enc b...)): whatever the caller did with
+   earlier results and whatever it still holds, the i-th call returns the encoding of its own argument *)
+Theorem C32_encodings_history_independent : forall ops held i op bs,
+  nth_error ops i = Some op -> enc_of op = Some bs -> nth_error (hrun held ops) i = Some (OBytes bs).
+Proof. exact hrun_history_independent. Qed.
+Example C32_ex_history :
+  hrun [] [HEnc 4 5; HAppendEnc 0 4 9; HWrite 0 3 7; HDec 4 0; HEnc 4 6; HEnc 4 5; HDec 4 1]
+  = [OBytes [0; 0; 0; 5]; OBytes [0; 0; 0; 9]; ONone; ONum 7; OBytes [0; 0; 0; 6]; OBytes [0; 0; 0; 5]; ONum 9].
+Proof. exact hrun_caller_copy_mutated. Qed.
+
 (* non-vacuity: the bounds are the ranges of uint16/32/64 *)
 Example C32_ranges : pow256 2 = 65536 /\ pow256 4 = 4294967296 /\ pow256 8 = 18446744073709551616.
 Proof. repeat split; vm_compute; reflexivity. Qed.
@@ -76,3 +87,4 @@ Print Assumptions C32_less_strict_total_order.
 Print Assumptions C32_less_is_epoch_lamport_order.
 Print Assumptions C32_any_sort_by_less.
 Print Assumptions C32_sorted_ids_sort_by_epoch_lamport.
+Print Assumptions C32_encodings_history_independent.
